@@ -7,6 +7,7 @@ package main
 import (
 	"fmt"
 	"regexp"
+	"strings"
 	"time"
 
 	"github.com/relex/gotils/logger"
@@ -44,9 +45,34 @@ func c13Setup() *c13Env {
 
 var c13Sentinel = time.Unix(1234567, 891)
 
-func c13Run(c *Case) (out string, fails []Fail) {
+// kind 1: a sequence of time values through ONE fresh transform instance (the transform keeps state:
+// the time-zone cache and the error counter); the output lists the per-record results in order.
+func c13RunSeq(c *Case) (out string, fails []Fail) {
+	c13Setup()
+	c13env = nil
 	env := c13Setup()
-	value := string(c.S[0])
+	defer func() { c13env = nil }()
+	outs := make([]string, 0, len(c.S))
+	for i, v := range c.S {
+		o, f := c13RunOne(env, string(v))
+		outs = append(outs, o)
+		for _, x := range f {
+			x.Desc = fmt.Sprintf("record %d of sequence %q: %s", i, c.S, x.Desc)
+			x.Sig += ":seq"
+			fails = append(fails, x)
+		}
+	}
+	return "seq:" + strings.Join(outs, ";"), fails
+}
+
+func c13Run(c *Case) (out string, fails []Fail) {
+	if c.Kind == 1 {
+		return c13RunSeq(c)
+	}
+	return c13RunOne(c13Setup(), string(c.S[0]))
+}
+
+func c13RunOne(env *c13Env, value string) (out string, fails []Fail) {
 	record := env.schema.NewTestRecord2(c13Sentinel, base.LogFields{value, "x"})
 	record.RawLength = 77
 	cnt0, len0 := env.lookup("timeError")
@@ -258,6 +284,23 @@ func c13Gen(g *Gen) {
 	for i := 0; i < g.Pick(1500, 30000); i++ {
 		one("out-of-range", fmt.Sprintf("%04d-%02d-%02dT%02d:%02d:%02d%s%s", r.Range(0, 9999), r.Range(0, 99), r.Range(0, 99),
 			r.Range(0, 99), r.Range(0, 99), r.Range(0, 99), c13Frac(r), c13Zone(r)))
+	}
+	// sequences through one transform instance: repeated invalid values, repeated zones (cache), mixes
+	for i := 0; i < g.Pick(1500, 40000); i++ {
+		n := r.Range(2, 8)
+		pool := []string{"-", "", "x", "2019-08-15T15:50:4", c13Valid(r), c13Valid(r), "2019-08-15T15:50:46.5+03:00", "2019-08-15T15:50:46+03:0", "2019-08-15T15:50:46+0300"}
+		seq := make([][]byte, n)
+		for j := range seq {
+			if j > 0 && r.Chance(1, 3) {
+				seq[j] = seq[r.Intn(j)] // repeat an earlier value
+			} else if r.Chance(1, 4) {
+				seq[j] = []byte(c13Valid(r))
+			} else {
+				seq[j] = []byte(pool[r.Intn(len(pool))])
+			}
+		}
+		g.Count("sequence")
+		g.Case(1, seq, nil)
 	}
 	// garbage
 	for i := 0; i < g.Pick(1500, 30000); i++ {
